@@ -37,3 +37,7 @@ func Oracle(name string) bool
 func Yield()
 func Preemptions() int
 func Eq(a, b string) bool
+func And(a, b bool) bool
+func Or(a, b bool) bool
+func Not(a bool) bool
+func Implies(a, b bool) bool
